@@ -255,6 +255,8 @@ class P(Prop):
         (M, "TV.C13.csv_header_block_roundtrip", "reader side of the header option: `header` first lines of any content, comment lines, then the data lines are read as exactly the observations"),
         (M, "TV.C13.writeToCsv_roundtrip", "the front end TrackWriter.writeToCsv(track, path, TrackFormat) writes what writeToFile writes with the format's ids, separator and header: the file is read back as the same observations"),
         (M, "TV.C13.writeToCsv_collection_roundtrip", "writeToCsv(collection, dir, TrackFormat) = writeToFiles: one file per track, each read back as its track"),
+        (M, "TV.C13.writeToFile_default_roundtrip", "writeToFile(track, path) with every other argument at its default (E column 0, N column 1, ',', no header) is read back by the matching readFromCsv(path, 0, 1)"),
+        (M, "TV.C13.readFromCsv_dir_roundtrip", "after writeToCsv(collection, dir, format), readFromCsv(dir, ...) returns the tracks of the files in whatever order the listing delivers them, each with all its observations (empty tracks skipped)"),
         (M, "TV.C13.csv_read_all_roundtrip", "feature columns: a file written with its header block and af_names, values of any kind (int, float, str, nan, inf), is read back by readFromCsv(h=0|1|2, read_all=True) as the same observations, the same feature names in order, and per observation the values expAF(name, value)"),
         (M, "TV.C13.read_all_values", "what expAF is: int -> the same number, float n/10^d of ANY magnitude -> the decimal str() printed, positional or in exponent notation (value n/10^d, exactly), nan/inf -> themselves, a non-numeric string without quotes -> itself; names ending in & keep the text; ints are always writable as one column, floats when the separator is not a number character, e or +"),
         (M, "TV.C13.time_roundtrip", "readTimestamp(str(t)) gives back the fields named by a format of distinct full-width codes, for every stamp that fits the widths"),
@@ -269,6 +271,7 @@ class P(Prop):
         (M, "TV.C13.network_row_roundtrip", "an edge line written by writeToCsv is split by csv.reader into its five fields and rebuilt by readLineAndAddToNetwork as the same edge"),
         (M, "TV.C13.net_file_roundtrip", "whole network file: h=1/header=1 and h=0/header=0 both return all edges in order"),
         (M, "TV.C13.gpx_file_roundtrip", "the body writeToGpx writes for a track is read by the trk scanner, with an ISO read format, as one track with the same points in order (elevation only for geographic coordinates)"),
+        (M, "TV.C13.gpx_collection_roundtrip", "writeToGpx(collection, file) - oneFile=True, the default - writes one <trk> per track; the file is read back as the same number of tracks in the same order, each with its points in order"),
         (M, "TV.C13.gpx_af_file_roundtrip", "the same for writeToGpx(af=True): the reader skips the <extensions> block of every point (one <name>value</name> line per feature, none of which closes the block itself), the points come back unchanged whatever the features are called"),
         (M, "TV.C13.gpx_af_names_ok", "every feature name without < > newline, not starting with / and other than 'extensions', with a value text without < and newline, is fine for gpx_af_file_roundtrip - time, ele, trk, trkpt included"),
         (M, "TV.C13.reread_roundtrip", "a timestamp text read under ANY lossless read format f2 gives the stamp whose text under f2 it is - whatever format it was printed with and whatever was read before (the oracle clause of the reread / twin-format sessions)"),
@@ -289,7 +292,10 @@ class P(Prop):
                        "correspondence only; float() of digit-group underscores (1_000) and of exponents beyond the double range (1e400 -> inf) is outside the "
                        "model (the generators avoid them)",
                        "TrackReader.parseWkt on POLYGON / MULTIPOLYGON texts (never written by tracklib) is modelled and compared on hand-made texts, without a theorem",
-                       "readFromCsv's no_data_value and com arguments keep their defaults (-999999, '#'); `com` is ignored by the library anyway (TrackFormat reads the key 'cmt')"]
+                       "readFromCsv's no_data_value and com arguments keep their defaults (-999999, '#'); `com` is ignored by the library anyway (TrackFormat reads the key 'cmt')",
+                       "formats given by NAME (writeToFile(track, path, 'RTKLIB'), readFromFile(path, 'RTKLIB'): resources/track_file_format) are outside the model: their "
+                       "separators have several characters (`bb`) or their timestamps are seconds since a reference epoch (date_ini); TrackReader.readFromWkt (a csv file with "
+                       "a WKT column, no writer in tracklib) is not modelled either"]
     modelled = ("TrackWriter.writeToFile (O list, sort, __printInOrder, float formats, feature columns with int / float / str / nan / inf values), "
                 "TrackReader.__readFromCsv (data loop, header/comment skipping, field extraction, no-data rule; read_all: name_non_special through the "
                 "header and comment lines, feature creation from the last line's fields, the second pass with its raw first line, float()/str values, names "
@@ -308,7 +314,9 @@ class P(Prop):
             "writer h in {1,2,3} x reader header 0..5 (correspondence); random tracks of 1-6 fixes with "
             "negative / 1e6-large / many-decimal coordinates on and off the 1 mm / 1e-8 deg lattice, timestamps at midnight, month, year ends and leap days; "
             "time formats; feature columns (0-3, int / float / str / nan values, names incl. `k&`, `time`, `ele`) read back with read_all for writer h 0-3 x reader header 0-4; "
-            "the front end writeToCsv on a track and on a collection (one file per track); GPX write/read, 40 % with af=True (feature names incl. time, ele, trk, trkpt); networks of 1-5 edges, three orientations, 2-5 vertices, ids that are numeric strings, user weights, half of them NOT "
+            "the front end writeToCsv on a track and on a collection (one file per track, read back file by file AND through readFromCsv(<directory>), compared as a "
+            "multiset of tracks: the listing order is the file system's); writeToFile(track, path) with default arguments read back by readFromCsv(path, 0, 1); "
+            "collections of 1-4 tracks written to ONE gpx file; GPX write/read, 40 % with af=True (feature names incl. time, ele, trk, trkpt); networks of 1-5 edges, three orientations, 2-5 vertices, ids that are numeric strings, user weights, half of them NOT "
             "topologically exact (edges sharing a node id end up to a few units beside the node's registered position; self loops), a quarter of them with vertices "
             "from the whole float range (up to 1e60: edge lengths are squared); WKT (ENU, Geo, ECEF): half on the 1 mm / 1e-8 deg lattice (1e-08 is printed in exponent "
             "notation), half any finite floats - exponent notation on both sides (1e-5 .. 5e-324, 1e16 .. 1.8e308), the values next to the two switches, the residues a "
@@ -349,7 +357,7 @@ class P(Prop):
     def exhaustive_scopes(self, tier):
         return ["all 38 column layouts (id_E,id_N[,id_U][,id_T] a permutation of 0..k-1) x separators {',', ';', ' '} x h in {0,1} x {ENU, GEO, ECEF}, "
                 "%d random tracks each" % (2 if tier == "quick" else 8),
-                "sessions: every operation kind in {csv, gpx one file, gpx one file per track, network, wkt, timeWithZone, kml} (and, for the default and the ISO "
+                "sessions: every operation kind in {csv, gpx one file, gpx one file per track, gpx collection in one file, network, wkt, timeWithZone, kml} (and, for the default and the ISO "
                 "format%s, every ordered pair of kinds) followed by a CSV round trip, under each of the %d session time formats; for each of them %d twin-format "
                 "sessions (the second file holds the texts of the first, read under the permuted format)" % (
                     "" if tier == "quick" else " and all the others", len(CSV_FMTS), 40 if tier == "quick" else 400),
@@ -533,6 +541,8 @@ class P(Prop):
                 rows, q = self.rand_rows(rng, "GEO", n=rng.choice([1, 2, 3]), q=8)
                 tracks.append({"tid": tid, "rows": rows})
             return {"kind": "gpxdir", "srid": "GEO", "q": 8, "tracks": tracks, "rfmt": rng.choice([ISO_FMT, ISO_FMT + "Z"])}
+        if kind == "gpxcoll":
+            return self.gpxcoll_case(rng)
         if kind == "net":
             return self.net_case(rng, sep=rng.choice([",", ";"]), h=1)
         if kind == "wkt":
@@ -547,7 +557,7 @@ class P(Prop):
             return {"kind": "kml", "srid": srid, "q": q, "rows": rows, "type": rng.choice(["LINE", "POINT"])}
         raise ValueError(kind)
 
-    SESSION_OPS = ["csv", "gpx", "gpxdir", "net", "wkt", "tz", "kml"]
+    SESSION_OPS = ["csv", "gpx", "gpxdir", "gpxcoll", "net", "wkt", "tz", "kml"]
 
     @staticmethod
     def norm(case):
@@ -743,6 +753,12 @@ class P(Prop):
             if rng.random() < 0.3:     # a collection: one file track_output_<i>.csv per track in a directory
                 c["more"] = [self.rand_rows(rng, c["srid"], rng.choice([1, 2]), c["q"])[0] for _ in range(rng.choice([1, 2]))]
             out.append(c)
+        # writeToFile(track, path) with every other argument left at its default, read back by the matching readFromCsv(path, 0, 1)
+        for _ in range(150 if not thorough else 1500):
+            c = self.csv_case(rng, {"E": 0, "N": 1, "U": -1, "T": -1}, ",", 0, rng.choice(SRIDS), q=rng.choice(["lat", "lat", None]),
+                              pfmt=rng.choice(CSV_FMTS), n=rng.choice([1, 2, 3, 5]))
+            c["front"] = "defaults"
+            out.append(c)
         # feature columns with int / float / str / nan values, read back with read_all (the names come from the header block)
         for _ in range(1500 if not thorough else 15000):
             h = rng.choice([1, 1, 1, 1, 2, 3, 0])
@@ -770,6 +786,9 @@ class P(Prop):
         for _ in range(10):
             rows, q = self.rand_rows(rng, "GEO", q=8)
             out.append({"kind": "gpx", "srid": "GEO", "q": q, "rows": rows, "rfmt": DEFAULT_FMT, "tid": 0})
+        # a collection written to ONE gpx file (oneFile=True, the default): one <trk> element per track
+        for _ in range(300 if not thorough else 3000):
+            out.append(self.gpxcoll_case(rng))
         # --- networks
         for sep in (",", ";", " "):
             for h in (0, 1):
@@ -795,6 +814,19 @@ class P(Prop):
         for _ in range(400 if not thorough else 4000):
             out.append(self.wktp_case(rng))
         return out
+
+    def gpxcoll_case(self, rng):
+        srid = rng.choice(["GEO", "GEO", "GEO", "ENU"])
+        q = rng.choice([8, 8, None]) if srid == "GEO" else rng.choice([3, None])
+        tids = rng.sample(["a", "b", "c", 11, 12, "t-1", 0], rng.choice([1, 2, 2, 3, 4]))
+        tracks = []
+        for tid in tids:
+            rows = self.rand_rows(rng, srid, n=rng.choice([1, 2, 3]), q=q)[0]
+            if srid != "GEO":
+                for r in rows:
+                    r[2] = 0 if q is not None else 0.0
+            tracks.append({"tid": tid, "rows": rows})
+        return {"kind": "gpxcoll", "srid": srid, "q": q, "tracks": tracks, "rfmt": rng.choice([ISO_FMT, ISO_FMT, ISO_FMT + "Z"])}
 
     def wkt_case(self, rng, n=None):
         """a track exported by toWKT and parsed back: vertices on the 1 mm / 1e-8 degree lattice (its small values, 1e-08 ...,
@@ -845,6 +877,7 @@ class P(Prop):
             t["lattice"] = case["q"] is not None
             t["domain"] = self.csv_domain(case) is None
             t["read_all"] = bool(case.get("read_all"))
+            t["front"] = case.get("front", "writeToFile") + ("(collection)" if case.get("more") else "")
         if k in ("net",):
             t["sep"] = case["sep"]; t["h"] = case["h"]; t["edges"] = len(case["edges"])
             t["exact_topology"] = self.net_exact(case)
@@ -891,7 +924,7 @@ class P(Prop):
             return True
         if k == "session":
             return any(self.nontrivial(o) for o in case["ops"])
-        if k == "gpxdir":
+        if k in ("gpxdir", "gpxcoll"):
             return True
         return True
 
@@ -933,7 +966,7 @@ class P(Prop):
                     if b != c:
                         self.leaks.append([name, what, b, c])
 
-    ISOLATED = ("session", "reread", "gpxdir")
+    ISOLATED = ("session", "reread", "gpxdir", "gpxcoll")
     _runner = None       # (owner pid, child pid, pipe to the child, pipe from the child)
 
     def impl(self, case):
@@ -1127,6 +1160,38 @@ class P(Prop):
         finally:
             shutil.rmtree(d, True)
 
+    def impl_gpxcoll(self, case):
+        """writeToGpx(collection, file.gpx) - oneFile=True, the default - then readFromGpx(file.gpx)"""
+        T = self.ObsTime
+        if not self.ambient:
+            T.setPrintFormat(DEFAULT_FMT)
+        pf0 = T.getPrintFormat()
+        coll = self.TrackCollection()
+        for tr in case["tracks"]:
+            trk = self.mk_track(case["srid"], tr["rows"], case["q"])
+            trk.tid = tr["tid"]
+            coll.addTrack(trk)
+        path = self.tmpfile("gpx")
+        try:
+            self.lib("TrackWriter.writeToGpx(collection)", self.TW.writeToGpx, coll, path)
+            with open(path, newline="") as fh:
+                text = fh.read()
+            head, _, body = text.partition("    <trk>\n")
+            keep = T.getReadFormat()
+            T.setReadFormat(case["rfmt"])
+            try:
+                back = self.lib("TrackReader.readFromGpx", self.TR.readFromGpx, path, srid=case["srid"])
+                read = [self.obs_rows(back[i]) for i in range(back.size())]
+            except Exception as e:
+                read = self.ekind(e)
+            finally:
+                if self.ambient:
+                    T.setReadFormat(keep)
+            return {"text": "    <trk>\n" + body, "head_ok": self.gpx_head_ok(head), "read": read, "print_fmt_restored": T.getPrintFormat() == pf0}
+        finally:
+            if os.path.exists(path):
+                os.remove(path)
+
     @staticmethod
     def gpx_head_ok(head):
         hl = head.split("\n")
@@ -1166,7 +1231,9 @@ class P(Prop):
         path = self.tmpfile("csv")
         try:
             try:
-                if case.get("front") == "writeToCsv":
+                if case.get("front") == "defaults":
+                    self.lib("TrackWriter.writeToFile(track, path)", self.TW.writeToFile, trk, path)
+                elif case.get("front") == "writeToCsv":
                     from tracklib.io import TrackFormat
                     tf = TrackFormat({"ext": "CSV", "id_E": ids["E"], "id_N": ids["N"], "id_U": ids["U"], "id_T": ids["T"], "separator": case["sep"], "header": case["h"]})
                     self.lib("TrackWriter.writeToCsv", self.TW.writeToCsv, trk, path, tf)
@@ -1234,7 +1301,13 @@ class P(Prop):
                     files.append({"text": text, "read": self.obs_rows(back)})
                 except Exception as e:
                     files.append({"text": text, "read": self.ekind(e)})
-            return {"text": files[0]["text"], "read": files[0]["read"], "others": files[1:], "nfiles": len(os.listdir(d))}
+            # the directory read: readFromCsv(<directory>) reads every file of the listing
+            try:
+                cb = self.lib("TrackReader.readFromCsv(directory)", self.TR.readFromCsv, d, ids["E"], ids["N"], ids["U"], ids["T"], case["sep"], h=case["hdrR"], srid=case["srid"])
+                dirread = [self.obs_rows(cb[i]) for i in range(cb.size())]
+            except Exception as e:
+                dirread = self.ekind(e)
+            return {"text": files[0]["text"], "read": files[0]["read"], "others": files[1:], "nfiles": len(os.listdir(d)), "dir": dirread}
         finally:
             shutil.rmtree(d, True)
 
@@ -1348,8 +1421,16 @@ class P(Prop):
             return ["C13.fix %d %d %d" % (case["w"], case["d"], n) for n in case["ns"]]
         if k == "time":
             return ["C13.time %s %s %s" % (hx(case["pfmt"]), hx(case["rfmt"]), " ".join(map(str, case["t"])))]
+        if k == "gpxcoll":
+            return ["C13.gpxc %d %s %s %s" % (case["srid"] == "GEO", hx(case["rfmt"]), ",".join(hx(str(tr["tid"])) for tr in case["tracks"]),
+                                              "|".join(";".join(self.row_tok(r, case["q"], 8) for r in tr["rows"]) or "_" for tr in case["tracks"]))]
         if k == "csv" and case.get("more"):
-            return [l for rows in [case["rows"]] + case["more"] for l in self.requests(dict({kk: v for kk, v in case.items() if kk != "more"}, rows=rows))]
+            ids = case["ids"]
+            d = 10 if case["srid"] == "GEO" else 3
+            trks = "|".join(";".join(self.row_tok(r, case["q"], d) for r in rows) or "_" for rows in [case["rows"]] + case["more"])
+            return ([l for rows in [case["rows"]] + case["more"] for l in self.requests(dict({kk: v for kk, v in case.items() if kk != "more"}, rows=rows))]
+                    + ["C13.csvdir %d %d %d %d %d %d %d %d %s %s %s %s" % (case["srid"] == "GEO", ids["E"], ids["N"], ids["U"], ids["T"], ord(case["sep"]), case["h"],
+                                                                          case["hdrR"], hx(case["pfmt"]), hx(case["rfmt"]), trks, hx(case["srid"]))])
         if k == "csv":
             ids = case["ids"]
             geo = case["srid"] == "GEO"
@@ -1360,7 +1441,7 @@ class P(Prop):
             return ["C13.csv %d %d %d %d %d %d %d %d %s %s %d %s %s %s %d" % (geo, ids["E"], ids["N"], ids["U"], ids["T"], ord(case["sep"]), case["h"],
                                                                              case["hdrR"], hx(case["pfmt"]), hx(case["rfmt"]), naf, rows,
                                                                              hx(case["srid"]), names,
-                                                                             2 if case.get("front") == "writeToCsv" else bool(case.get("read_all")))]
+                                                                             3 if case.get("front") == "defaults" else 2 if case.get("front") == "writeToCsv" else bool(case.get("read_all")))]
         if k == "gpx" and "af_names" in case:
             rows = ";".join(self.row_tok(r, case["q"], 8, case["afs"][i]) for i, r in enumerate(case["rows"]))
             return ["C13.gpxaf %d %s %s %d %s %s" % (case["srid"] == "GEO", hx(case["rfmt"]), hx(str(case["tid"])), len(case["af_names"]),
@@ -1426,12 +1507,20 @@ class P(Prop):
         if k == "time":
             h, b = replies[0].split(" ")
             return {"text": unhx(h), "back": "value" if b == "none" else [int(v) for v in b.split(",")]}
+        if k == "gpxcoll":
+            return self.decode({"kind": "gpx"}, replies)
         if k == "csv" and case.get("more"):
             one = {kk: v for kk, v in case.items() if kk != "more"}
-            ds = [self.decode(dict(one, rows=rows), [r]) for rows, r in zip([case["rows"]] + case["more"], replies)]
+            ds = [self.decode(dict(one, rows=rows), [r]) for rows, r in zip([case["rows"]] + case["more"], replies[:-1])]
             if any("werr" in d for d in ds):
                 return next(d for d in ds if "werr" in d)
-            return {"text": ds[0]["text"], "read": ds[0]["read"], "others": [{"text": d["text"], "read": d["read"]} for d in ds[1:]]}
+            w, _, r = replies[-1].partition(" R:")
+            if r.startswith("err:"):
+                dirread = r[4:]
+            else:
+                dirread = [([] if t == "_" else [self.rrow(x) for x in t.split(";")]) for t in r[3:].split("|")] if r[3:] else []
+            return {"text": ds[0]["text"], "read": ds[0]["read"], "others": [{"text": d["text"], "read": d["read"]} for d in ds[1:]],
+                    "dir": dirread, "dir_texts": [unhx(t) for t in w[2:].split("|")]}
         if k == "wktp":
             r = replies[0]
             return {"read": r[4:] if r.startswith("err:") else [self.v3(t) for t in r[3:].split("|")]}
@@ -1485,6 +1574,8 @@ class P(Prop):
         if k == "reread" and "err" not in impl_out:
             mine = {"text": impl_out["text"], "backs": impl_out["backs"]}
             return None if mine == model_out else "impl=%s model=%s" % (str(mine)[:300], str(model_out)[:300])
+        if k == "gpxcoll" and "err" not in impl_out:
+            return self.compare({"kind": "gpx"}, impl_out, model_out)
         if k == "gpxdir" and "err" not in impl_out:
             if len(impl_out["files"]) != len(model_out["files"]):
                 return "number of files"
@@ -1514,6 +1605,16 @@ class P(Prop):
                 return "file track_output_%d.csv: impl=%s model=%s" % (j + 1, str(fi)[:300], str(fm)[:300])
         if len(impl_out.get("others", [])) != len(model_out.get("others", [])):
             return "number of files written for the collection"
+        if "dir" in model_out:
+            # the directory read: os.listdir's order is the file system's; the model lists the files in the order written
+            if model_out["dir_texts"] != [impl_out["text"]] + [o["text"] for o in impl_out["others"]]:
+                return "writeToCsvColl texts differ from the files written"
+            a, b = impl_out.get("dir"), model_out["dir"]
+            if isinstance(a, str) or isinstance(b, str):
+                if a != b:
+                    return "directory read: impl=%s model=%s" % (str(a)[:300], str(b)[:300])
+            elif sorted(repr([[v + 0.0 for v in r[:3]] + list(r[3:]) for r in t]) for t in a) != sorted(repr([[v + 0.0 for v in r[:3]] + list(r[3:]) for r in t]) for t in b):
+                return "directory read (as a multiset of tracks): impl=%s model=%s" % (str(a)[:300], str(b)[:300])
         if impl_out.get("af") != model_out.get("af"):
             return "read_all features: impl=%s model=%s" % (str(impl_out.get("af"))[:300], str(model_out.get("af"))[:300])
         for j, rr in enumerate(impl_out.get("rereads", [])):
@@ -1619,6 +1720,21 @@ class P(Prop):
                     return "the text %r is what format %r prints for %s; read under %r (after reads under %s) it comes back as %s" % (
                         out["text"], f, want, f, case["fmts"][:case["fmts"].index(f)], back)
             return None
+        if k == "gpxcoll":
+            if not fmt_is_lossless(case["rfmt"].rstrip("Z")) or not case["rfmt"].startswith(ISO_FMT):
+                return None
+            rd = out["read"]
+            if isinstance(rd, str):
+                return "GPX collection: reading the written file raised %s" % rd
+            if len(rd) != len(case["tracks"]):
+                return "GPX collection: %d tracks written to one file, %d read back" % (len(case["tracks"]), len(rd))
+            if not out["print_fmt_restored"]:
+                return "GPX writer did not restore the print format"
+            for tr, got in zip(case["tracks"], rd):
+                m = self.check_rows(tr["rows"], got, case["q"], case["srid"], "gpx", True, True, "GPX collection, track %s" % tr["tid"])
+                if m:
+                    return m
+            return None
         if k == "gpxdir":
             if out["nfiles"] != len(case["tracks"]):
                 return "GPX directory: %d tracks written, %d files found" % (len(case["tracks"]), out["nfiles"])
@@ -1660,6 +1776,19 @@ class P(Prop):
                                         "CSV collection file track_output_%d.csv sep %r h=%d ids %s" % (j + 1, case["sep"], case["h"], ids))
                     if m:
                         return m
+            if case.get("more"):
+                # read back through the directory: the same tracks, in the order of the listing (any order)
+                dr = out.get("dir")
+                if isinstance(dr, str):
+                    return "readFromCsv(directory) raised %s" % dr
+                left = [case["rows"]] + case["more"]
+                if len(dr) != len(left):
+                    return "readFromCsv(directory): %d tracks written, %d read back" % (len(left), len(dr))
+                for got in dr:
+                    hit = next((i for i, rows in enumerate(left) if self.check_rows(rows, got, case["q"], case["srid"], "csv", ids["U"] != -1, ids["T"] != -1, "") is None), None)
+                    if hit is None:
+                        return "readFromCsv(directory): the track read back as %s is none of the tracks written" % str(got)[:300]
+                    left.pop(hit)
             for j, rd in enumerate([out["read"]] + out.get("rereads", [])):
                 m = self.check_rows(case["rows"], rd, case["q"], case["srid"], "csv", ids["U"] != -1, ids["T"] != -1,
                                     "CSV %s sep %r h=%d ids %s time format %r%s" % (case["srid"], case["sep"], case["h"], ids, case["pfmt"],
@@ -1723,6 +1852,8 @@ class P(Prop):
                 return "csv-separator-in-timestamp"
         if k == "gpx" and case["srid"] != "GEO" and any(r[2] != 0 for r in case["rows"]):
             return "gpx-elevation-non-geo"
+        if k == "gpxcoll" and case["srid"] != "GEO" and any(r[2] != 0 for tr in case["tracks"] for r in tr["rows"]):
+            return "gpx-elevation-non-geo"
         return None
 
     # ------------------------------------------------------------------ shrinking / search
@@ -1747,7 +1878,7 @@ class P(Prop):
         if k == "reread" and len(case["fmts"]) > 1:
             for i in range(len(case["fmts"])):
                 yield dict(case, fmts=case["fmts"][:i] + case["fmts"][i + 1:])
-        if k == "gpxdir":
+        if k in ("gpxdir", "gpxcoll"):
             if len(case["tracks"]) > 1:
                 for i in range(len(case["tracks"])):
                     yield dict(case, tracks=case["tracks"][:i] + case["tracks"][i + 1:])
